@@ -58,6 +58,8 @@ pub struct Apps {
     conns: BTreeMap<(usize, usize), ConnApp>,
     /// attach passive readers to all connections
     pub readers: bool,
+    /// readers answer on every bidirectional stream the peer opens: (bytes, chunk)
+    pub echo: Option<(u64, u64)>,
     /// readers leave received datagrams in the connection's buffer ("dgram_read":false)
     pub no_dgram_read: bool,
 }
@@ -100,6 +102,9 @@ impl Apps {
             }
         }
         self.readers = true;
+        if let Some(e) = s["echo"].as_u64() {
+            self.echo = Some((e, s["echo_chunk"].as_u64().unwrap_or(1 << 20)));
+        }
         // the handshake may already be complete
         if w.nodes[n]
             .conns
@@ -174,7 +179,19 @@ impl Apps {
                         .unwrap()
                         .inn
                         .insert(id, InStream::default());
+                    if let (0, Some((size, chunk))) = (dir, self.echo) {
+                        // answer on the peer's bidirectional stream
+                        let key = key_for(w, n, id);
+                        let a = self.conns.get_mut(&(n, c)).unwrap();
+                        a.out.push(OutStream { dir: 0, size, chunk, finish: true, id: Some(id), written: 0,
+                            finished_called: false, finished_event: false, stopped: false, key });
+                        a.active_writer = true;
+                        a.connected = true;
+                    }
                     self.read(w, n, c, id);
+                }
+                if self.echo.is_some() {
+                    self.pump_writer(w, n, c);
                 }
                 w.after_input(n, c);
             }
